@@ -754,11 +754,12 @@ fn parse_aml_taggedmember(
     }
 
     let taggedmember = if let TokenType::Tag(tag) = tok {
-        let tok_peek = tok_iter.peek();
-        let item = if let Some(TokenType::Semicolon) = tok_peek {
-            A2mlTypeSpec::None
-        } else {
-            parse_aml_tagged_def(tok_iter, types)?
+        // the member after the tag is optional: the definition can end directly after the tag,
+        // either with ";" or, inside of "( ... )*", with ")"
+        let item = match tok_iter.peek() {
+            Some(TokenType::Semicolon) => A2mlTypeSpec::None,
+            Some(TokenType::ClosedRoundBracket) if repeat => A2mlTypeSpec::None,
+            _ => parse_aml_tagged_def(tok_iter, types)?,
         };
         (
             (*tag).to_string(),
